@@ -513,6 +513,9 @@ Pairs == {<<u, e>> : u \in DOMAIN usk \cap DOMAIN g.usk, e \in DOMAIN encs \cap 
 CompleteOpens == \A p \in Pairs : MustOpen(g, p[1], p[2]) => Opens(p[1], p[2])
 SoundOpens == \A p \in Pairs : MustNotOpen(g, p[1], p[2]) => ~Opens(p[1], p[2])
 
+\* the reference specification never obliges and forbids the same secret
+GhostOk == GhostWF(g)
+
 \* C09/C10/C06/C17/C18: no call of the model disagreed with its contract
 ContractOk == bad = {}
 
